@@ -217,29 +217,14 @@ def exh4_queries():
     return Q
 
 
-def gen_cases(ctx):
-    tier, rng = ctx["tier"], ctx["rng"]
-    for n in (1, 2, 3):
-        for g in C.enum_graphs(n, C.PAG_STATES):
-            yield graph_case(g, "PAG", "exh%d" % n)
-            if not g["C"]:
-                yield graph_case(g, "ADMG", "exh%d-admg" % n)
-    fams = C.Labels.FAMILIES
-    if tier == "thorough":
-        q4 = exh4_queries()
-        for g in C.enum_graphs(4, C.PAG_STATES):
-            yield graph_case(g, "PAG", "exh4", Q=q4, P=[])
-        n4, n5, n6, n7 = 3000, 6000, 3000, 300
-    else:
-        n4, n5, n6, n7 = 1500, 500, 150, 0
-    i = 0
-    for n, cnt in ((4, n4), (5, n5), (6, n6), (7, n7)):
+def rand_stream(rng, plan, fams, i0=0):
+    i = i0
+    for n, cnt in plan:
         for _ in range(cnt):
             i += 1
             g = rand_pag(rng, n)
             cls = "PAG"
             if i % 5 == 0:
-                g["C"] = []
                 g = C.g_new(n, D=g["D"], B=g["B"], U=g["U"])
                 cls = "ADMG"
             if i % 3 == 0:
@@ -251,6 +236,24 @@ def gen_cases(ctx):
             else:
                 Q, P = rand_queries(rng, n, 40), rand_seqs(rng, g, 40)
             yield graph_case(g, cls, "rnd%d" % n, Q=Q, P=P, fam=fams[i % len(fams)])
+
+
+def gen_cases(ctx):
+    """corpus first (in run), then exhaustive <=3 nodes, the quick-sized random stream, and in the thorough
+    tier the exhaustive 4-node stream and a larger random stream (so a deadline cuts the least important part)"""
+    tier, rng = ctx["tier"], ctx["rng"]
+    for n in (1, 2, 3):
+        for g in C.enum_graphs(n, C.PAG_STATES):
+            yield graph_case(g, "PAG", "exh%d" % n)
+            if not g["C"]:
+                yield graph_case(g, "ADMG", "exh%d-admg" % n)
+    fams = C.Labels.FAMILIES
+    yield from rand_stream(rng, ((4, 1500), (5, 500), (6, 150)), fams)
+    if tier == "thorough":
+        q4 = exh4_queries()
+        for g in C.enum_graphs(4, C.PAG_STATES):
+            yield graph_case(g, "PAG", "exh4", Q=q4, P=[])
+        yield from rand_stream(rng, ((4, 1500), (5, 3000), (6, 1500), (7, 200)), fams, i0=7)
 
 
 # ----------------------------------------------------------------------------- judging
@@ -372,9 +375,11 @@ def run(ctx):
     ev.rule = ("per graph: all_semi_directed_paths for every ordered pair x cutoff None,0..|V| with the target as a "
                "node, as a singleton set and as every set of >=2 nodes; is_semi_directed_path on every node "
                "sequence (repeats allowed) up to length min(|V|,4) plus perturbed random walks and a foreign node; "
-               "possible_descendants/ancestors of every node. graphs: every PAG on <=3 nodes (thorough: 4) over pair "
-               "kinds {none,->,<-,<->,--,o-o,o->,<-o} (ADMG class too when circle-free), random 4-6 (thorough: 7) "
-               "nodes, shuffled insertion order, five label families. evaluations = number of single queries. "
+               "possible_descendants/ancestors of every node. graphs: every PAG on <=3 nodes over pair "
+               "kinds {none,->,<-,<->,--,o-o,o->,<-o} (ADMG class too when circle-free); thorough adds every PAG on 4 "
+               "nodes with every ordered pair x cutoff None,0..4, singleton-set targets and two target sets per source; "
+               "random 4-6 (thorough: 7) nodes with all pairs x all cutoffs (4-5 nodes) or 40 random queries, "
+               "shuffled insertion order, five label families. evaluations = number of single queries. "
                "non-trivial (counted per graph) = some query yields a path with exactly `cutoff` edges, i.e. the "
                "`len(visited) == cutoff` branch produced output, while another simple s-t path is rejected")
     ev.assumptions = ["at most one edge kind per pair (the property's quantifier); no self loops",
@@ -412,6 +417,9 @@ def run(ctx):
             if d and len(bad) < 50:
                 bad.append((case, d))
         if bad:
+            break
+        if C.time.time() > ctx["deadline"]:
+            ev.extra["truncated_by_deadline"] = True
             break
     cases = [first_case] if first_case else []
     if not ev.samples and cases:
